@@ -26,6 +26,7 @@ func init() {
 			"(R1) URL.EnsureValid returns nil for an SSH or Docker URL only on paths where the host's first byte was tested not to be '-' and the user is empty or its first byte was tested not to be '-' (path enumeration over the validator; the only components that reach ssh/scp/docker argv positionally); " +
 			"(R2) every way a URL enters a controller passes that validator first: Session.EnsureValid (synchronization and forwarding) and the services' CreationSpecification.ensureValid return nil only under EnsureValid()==nil of both URLs; CreateRequest.ensureValid requires the specification's; the Create RPC handlers call Manager.Create only under request.ensureValid()==nil; loadSession uses the stored session only under session.EnsureValid()==nil; " +
 			"(R3) the transports' user/host/container fields are written only by their constructors, and the constructors are called only by the protocol handlers with the URL's User/Host; (thorough) Manager.Create is called only by the service handlers. " +
+			"(R4) inside the ssh/docker transports no value computed from a URL component is passed to strings.Split/Fields (word splitting would turn a user like «root --privileged» into options although it does not begin with a hyphen); " +
 			"Not decided: quoting inside the remote shell command line (the agent path is not URL-derived), Windows argument quoting.",
 		Assumptions: []string{"an argv element is option-like to ssh/scp/docker only if it begins with '-'", "user@host: with a non-empty validated user the host is not at the start of the element"},
 		Run:         runC36,
@@ -33,6 +34,7 @@ func init() {
 }
 
 func runC36(c *eng.Ctx) {
+	c36NoLexing(c)
 	// R1: the validator.
 	ev := c.MustFunc("R1", urlPkg, "URL.EnsureValid")
 	if ev != nil {
